@@ -29,7 +29,7 @@ def walk_collectors(ctx: Ctx) -> List[Tuple[Func, ast.For]]:
     """The local-variable collector written as a function: a function of the main analysis module, called by
     `get_local_vars`, that iterates `ast.walk(<node>)` and adds names to a set (the other shape of LocalVarsVisitor)."""
     prog = ctx.prog
-    glv = prog.funcs.get("dds.introspect.InspectFunction.get_local_vars")
+    glv = prog.func("dds.introspect.InspectFunction.get_local_vars")
     if glv is None:
         return []
     out = []
@@ -96,8 +96,8 @@ def traversal_complete(ctx: Ctx, rule: str) -> int:
 
 def sibling_pruning(ctx: Ctx, rule: str) -> int:
     rep = ctx.report
-    loc = ctx.prog.classes.get("dds.introspect.LocalVarsVisitor")
-    ext = ctx.prog.classes.get("dds.introspect.ExternalVarsVisitor")
+    loc = ctx.prog.cls("dds.introspect.LocalVarsVisitor")
+    ext = ctx.prog.cls("dds.introspect.ExternalVarsVisitor")
     if loc is None and ext is not None and walk_collectors(ctx):
         g, lp = walk_collectors(ctx)[0]
         skips = [x for x in ast.walk(lp) if isinstance(x, (ast.Break, ast.Return))]
@@ -137,7 +137,7 @@ def sibling_pruning(ctx: Ctx, rule: str) -> int:
 
 def only_value_binders(ctx: Ctx, rule: str) -> int:
     rep = ctx.report
-    loc = ctx.prog.classes.get("dds.introspect.LocalVarsVisitor")
+    loc = ctx.prog.cls("dds.introspect.LocalVarsVisitor")
     sources: List[Tuple[Func, ast.AST, str, str]] = []  # (function, recording call, node kind, label)
     if loc is None:
         for g, lp in walk_collectors(ctx):
